@@ -114,7 +114,8 @@ func (r *Result) Failed() bool {
 		(!opts.IgnoreDropped && r.snapshot.DroppedIterationCount > 0) ||
 		(opts.MaxFailures == 0 && opts.MaxFailuresRate == 0 && r.snapshot.FailedIterationDurations.Count > 0) ||
 		(opts.MaxFailures > 0 && r.snapshot.FailedIterationDurations.Count > opts.MaxFailures) ||
-		(opts.MaxFailuresRate > 0 && (r.snapshot.FailedIterationsRate() > uint64(opts.MaxFailuresRate)))
+		(opts.MaxFailuresRate > 0 &&
+			r.snapshot.FailedIterationDurations.Count*100 > uint64(opts.MaxFailuresRate)*r.snapshot.Iterations())
 }
 
 func (r *Result) Progress() *views.ViewContext[views.ProgressData] {
